@@ -67,6 +67,24 @@ def stream_real(tier, seed):
                                          objective=second, metrics=mets, first_objective=first))
         except Exception as e:         # solving / evaluating a well-posed model must not raise
             problems.append(dict(kind="real-model-raised", model=m, error="%s: %s" % (type(e).__name__, str(e)[:200])))
+    # models WITH an LMI (user LMI, own LMI of a function, class LMI of a linear operator / quadratic) solved WITH a
+    # dimension-reduction heuristic: the value of the LMI, of its entries and of the points must describe ONE instance,
+    # the one of the last solve (seed C02-11: PSDMatrix._value written from the first solve's matrix variable)
+    hstats = {}
+    done_h = 0
+    for idx in range(n):
+        m = idx + 6 * (seed % 1000)
+        if ["gd", "gd2", "symlin", "quad", "partition", "lmi"][m % 6] not in ("gd2", "lmi", "symlin") or done_h >= (3 if tier == "quick" else 12):
+            continue
+        try:
+            p, h = S.real_model(m)
+            h = dict(h, solve_kw=dict(dimension_reduction_heuristic=["trace", "logdet1"][done_h % 2],
+                                      tol_dimension_reduction=0.25), scale=0.1)
+            S.check_instance(p, h, "lmi-heuristic-%d" % m, problems, hstats)
+            done_h += 1
+        except Exception as e:
+            problems.append(dict(kind="real-model-raised", model="lmi-heuristic-%d" % m,
+                                 error="%s: %s" % (type(e).__name__, str(e)[:200])))
     bstats = {}
     for k in range(nb):
         idx = 2 * k if tier == "quick" else k
@@ -78,7 +96,7 @@ def stream_real(tier, seed):
                                  error="%s: %s" % (type(e).__name__, str(e)[:200])))
     for pr in problems:
         pr["generator"] = "real"
-    return dict(name="scs-instances", evaluations=n + nb, distinct_nontrivial=n + nb,
+    return dict(name="scs-instances", evaluations=n + nb + done_h, distinct_nontrivial=n + nb + done_h,
                 rule="small gradient-type PEPs (6 families: plain, two metrics, symmetric linear operator, quadratic, "
                      "block partition, user LMI) solved with SCS (eps 1e-9), plus badly scaled subgradient models "
                      "(M = 0.02 / 0.03) solved with the trace / logdet dimension-reduction heuristics; Gram of the evaluated "
